@@ -53,6 +53,13 @@ def run(tier):
     if not res2["ok"]:
         raise common.MachineryError("design model violated: %s" % res2["violated"])
     rep.add_model(res2, role="design: counter memo, all histories of <= 5 calls on 2 objects")
+    # unbounded histories: the invariant is inductive for an arbitrary true-count function (Apalache)
+    rep.add_model(common.apalache_check("MC_CountCacheInd", "ConstInit", "Init", "IndInv", 0),
+                  role="apalache: Init => IndInv (counter memo, object scope, arbitrary true counts)")
+    rep.add_model(common.apalache_check("MC_CountCacheInd", "ConstInit", "IndInit", "IndInv", 1),
+                  role="apalache: IndInv /\\ Next => IndInv' (holds for call histories of any length)")
+    rep.add_model(common.apalache_check("MC_CountCacheInd", "ConstInitProcess", "IndInit", "IndInv", 1, expect_error=True),
+                  role="apalache negative: with a process-wide memo the invariant is not inductive")
     full = [s["hist"] for s in cstates if len(s["hist"]) == 5 and sum(1 for x in s["hist"] if x["op"] == "count") >= 2]
     import random
     random.Random(common.seed()).shuffle(full)
